@@ -33,7 +33,7 @@ def cases(tier, seed):
         yield f"C15|producer|{scheme}|order={order}", {"kind": "producers", "specs": specs, "tier": tier}
     yield "C15|consumer|synthetic", {"kind": "synthetic", "tier": tier}
     yield "C15|consumer|stateful-bfs", {"kind": "stateful", "tier": tier}
-    for dec in ("bp", "minsum", "wagner", "sc", "polar-bp", "soft-rm"):
+    for dec in ("bp", "minsum", "wagner", "sc", "polar-bp", "soft-rm", "bp-irregular", "minsum-irregular"):
         yield f"C15|decoder|{dec}", {"kind": "decoder", "dec": dec, "tier": tier}
 
 
@@ -292,7 +292,12 @@ def decoder_case(p, res):
     from kaira.models.fec import decoders as D
     from kaira.models.fec import encoders as E
     dec = p["dec"]
-    if dec in ("bp", "minsum"):
+    if dec in ("bp-irregular", "minsum-irregular"):
+        # check degrees 3,2,3,2,4: equal-degree checks are not adjacent
+        H = torch.tensor([[1, 1, 0, 1, 0, 0, 0, 0], [0, 1, 1, 0, 0, 0, 0, 0], [0, 0, 0, 1, 1, 1, 0, 0], [0, 0, 0, 0, 0, 1, 1, 0], [1, 0, 1, 0, 1, 0, 1, 1]], dtype=torch.float32)
+        enc = E.LDPCCodeEncoder(check_matrix=H)
+        mk = (lambda: D.BeliefPropagationDecoder(enc, bp_iters=12)) if dec == "bp-irregular" else (lambda: D.MinSumLDPCDecoder(enc, bp_iters=12))
+    elif dec in ("bp", "minsum"):
         H = torch.tensor([[1, 1, 0, 1, 0, 0], [0, 1, 1, 0, 1, 0], [0, 0, 0, 1, 1, 1]], dtype=torch.float32)   # a tree: BP exact
         enc = E.LDPCCodeEncoder(check_matrix=H)
         mk = (lambda: D.BeliefPropagationDecoder(enc, bp_iters=12)) if dec == "bp" else (lambda: D.MinSumLDPCDecoder(enc, bp_iters=12))
